@@ -212,13 +212,19 @@ Notation sM := (@mscale Cops).
                         parameter p                                                       (T, Phi)
    R1Av A D D2 h p c b : ScalarOp with (arr, arr0) = A(c x + b), derivative pairs D, D2; h says whether the
                         operator has a recovery array                                     (E, P, R)
-   R1Mc / R1Ac : constant operators;  R1S : 1-D shift with optional nmax *)
+   R1Mc / R1Ac : constant operators;  R1S : 1-D shift with optional nmax
+   R1Spoil / R1Reset / R1PD pd reset / R1Wait : SPOILER, RESET, PD(pd, reset), Wait -- operators without a
+                        differentiable parameter, applied through Operator.__call__ (state and all partials) *)
 Inductive ritem1 : Type :=
 | R1Mc (M : mat3 Cops)
 | R1Mv (F D D2 : R -> mat3 Cops) (p : param) (c b : R)
 | R1Ac (A : arr2)
 | R1Av (A D D2 : R -> arr2) (h : bool) (p : param) (c b : R)
-| R1S (d : Z) (nm : option nat).
+| R1S (d : Z) (nm : option nat)
+| R1Spoil
+| R1Reset
+| R1PD (p : C) (r : bool)
+| R1Wait.
 
 (* the operator epgpy applies at parameter value x *)
 Definition real1_of (x : R) (it : ritem1) : op Cops :=
@@ -228,6 +234,10 @@ Definition real1_of (x : R) (it : ritem1) : op Cops :=
   | R1Ac A => OScalar (fst A) (snd A)
   | R1Av A D D2 h p c b => OScalar (fst (A (c * x + b))) (snd (A (c * x + b)))
   | R1S d nm => OShift d nm
+  | R1Spoil => OSpoil
+  | R1Reset => OReset
+  | R1PD p r => @OPD Cops p r
+  | R1Wait => OWait
   end.
 
 Definition fam1_of (it : ritem1) : fop R :=
@@ -238,6 +248,10 @@ Definition fam1_of (it : ritem1) : fop R :=
   | R1Av A D D2 h p c b => FScalar (fun x => fst (A (c * x + b)))
                          (if h then Some (fun x => opt0 (snd (A (c * x + b)))) else None)
   | R1S d nm => FShift d nm
+  | R1Spoil => FSpoil
+  | R1Reset => FReset
+  | R1PD p r => FPD p r
+  | R1Wait => FWait
   end.
 
 (* the differentiation operator handed to diff.py's bookkeeping at x0 (shapes of Proofs/Shapes2.v):
@@ -254,6 +268,10 @@ Definition dop1_of (x0 : R) (v : var) (it : ritem1) : dinstr Cops :=
                  (LScalar (fst (D (c * x0 + b))) (snd (D (c * x0 + b))))
                  (LScalar (fst (D2 (c * x0 + b))) (snd (D2 (c * x0 + b)))) v (RtoC c))
   | R1S d nm => DOp (dop0 Cops (LShift d nm))
+  | R1Spoil => DPlain (@OSpoil Cops)
+  | R1Reset => DPlain (@OReset Cops)
+  | R1PD p r => DPlain (@OPD Cops p r)
+  | R1Wait => DPlain (@OWait Cops)
   end.
 
 (* the 2-jets of the arrays *)
@@ -271,6 +289,10 @@ Definition jet1_of (x0 : R) (it : ritem1) : op DDC :=
                                      (sT (RtoC c) (opt0 (snd (D (c * x0 + b)))))
                                      (sT (cc c) (opt0 (snd (D2 (c * x0 + b)))))) else None)
   | R1S d nm => OShift d nm
+  | R1Spoil => OSpoil
+  | R1Reset => OReset
+  | R1PD p r => @OPD DDC (inj4 p) r
+  | R1Wait => OWait
   end.
 
 (* side conditions: D is the derivative of the arrays NEAR the point, D2 the derivative of D AT the point;
@@ -287,7 +309,7 @@ Definition item1_ok (x0 : R) (it : ritem1) : Prop :=
 
 Lemma inst_fam1 x0 it x : item1_ok x0 it -> inst R (fam1_of it) x = real1_of x it.
 Proof.
-  destruct it as [M|F D D2 p c b|A|A D D2 h p c b|d nm]; cbn [item1_ok fam1_of inst real1_of]; intros Hok; try reflexivity.
+  destruct it as [M|F D D2 p c b|A|A D D2 h p c b|d nm| | |q r|]; cbn [item1_ok fam1_of inst real1_of]; intros Hok; try reflexivity.
   - destruct A as [a [a0|]]; reflexivity.
   - destruct Hok as (_ & _ & Hh & _). specialize (Hh (c * x + b)). unfold has0 in Hh.
     destruct h; cbn [option_map]; cbv beta; destruct (snd (A (c * x + b))); try discriminate; reflexivity.
@@ -309,7 +331,7 @@ Qed.
 
 Lemma item1_jet x0 it : item1_ok x0 it -> is_jet R DDC (jet1 x0) inj4 (fam1_of it) (jet1_of x0 it).
 Proof.
-  destruct it as [M|F D D2 p c b|A|A D D2 h p c b|d nm]; cbn [item1_ok fam1_of jet1_of is_jet ojet]; intros Hok.
+  destruct it as [M|F D D2 p c b|A|A D D2 h p c b|d nm| | |q r|]; cbn [item1_ok fam1_of jet1_of is_jet ojet]; intros Hok.
   - split; [exact (jet1M_const x0 M)|exact I].
   - destruct Hok as [L1 H2]. split; [|exact I].
     apply (jet1M_zip x0 (fun x => F (c * x + b)) (fun x => sM (RtoC c) (D (c * x + b)))); [reflexivity| |reflexivity|].
@@ -330,6 +352,10 @@ Proof.
         intros x Hx. exact (derT_affine (fun u => opt0 (snd (A u))) c b x _ (proj2 Hx)).
       * exact (derT_affine2 (fun u => opt0 (snd (D u))) c b x0 _ Da02).
   - split; reflexivity.
+  - exact I.
+  - exact I.
+  - split; reflexivity.
+  - exact I.
 Qed.
 
 Notation pair_ok12C := (pair_ok12 DDC Cops e00 e10 e01 e11).
@@ -345,9 +371,16 @@ Proof.
   - now rewrite Ho.
 Qed.
 
+(* PD(pd, reset): the density is a constant -- all the derivative parts of its jet are zero *)
+Lemma plain_pd_pair v1 v2 bb (p : C) (r : bool) :
+  pair_ok12C v1 v2 bb (@OPD DDC (inj4 p) r) (DPlain (@OPD Cops p r)).
+Proof.
+  exact (plain_pd_ok DDC Cops e00 e10 e01 e11 v1 v2 bb (inj4 p) r eq_refl eq_refl eq_refl).
+Qed.
+
 Lemma item1_pair x0 v bb it : item1_ok x0 it -> pair_ok12C v v bb (jet1_of x0 it) (dop1_of x0 v it).
 Proof.
-  destruct it as [M|F D D2 p c b|A|A D D2 h p c b|d nm]; cbn [item1_ok jet1_of dop1_of]; intros Hok.
+  destruct it as [M|F D D2 p c b|A|A D D2 h p c b|d nm| | |q r|]; cbn [item1_ok jet1_of dop1_of]; intros Hok.
   - assert (E : LMatrix M None = mlinC (LMatrix (zip4M M mz mz mz) None)) by (cbn [map_lin option_map]; now rewrite v4M_zip).
     rewrite E. apply (dop0_ok DDC Cops Claws e00 e10 e01 e11 v v bb (LMatrix (zip4M M mz mz mz) None)); try reflexivity;
       cbn [lmat lmat0]; now rewrite ?x4M_zip, ?y4M_zip, ?xy4M_zip.
@@ -384,6 +417,10 @@ Proof.
        [rewrite ?x4M_mdiag, ?y4M_mdiag, ?xy4M_mdiag, ?mdiag_tscale; reflexivity
        |rewrite ?(Z1 eq_refl), ?(Z2 eq_refl), ?mscale_mzero; reflexivity]).
   - exact (dop0_shift_ok DDC Cops e00 e10 e01 e11 v v bb d nm).
+  - reflexivity.
+  - reflexivity.
+  - exact (plain_pd_pair v v bb q r).
+  - reflexivity.
 Qed.
 
 (* ================= the end-to-end statement, diagonal entry ================= *)
@@ -418,7 +455,8 @@ Qed.
 (* ================================================================================== *)
 (* Part 2: the mixed entry                                                            *)
 (* ================================================================================== *)
-(* IX it : an item of Proofs/RealSeq.v (constant, one parameter driven affinely, shift) driven by x
+(* IX it : an item of Proofs/RealSeq.v (constant, one parameter driven affinely, shift, SPOILER, RESET,
+           PD(pd, reset), Wait) driven by x
    IY it : the same driven by y
    IMxy sw F Dp Dq Dpq p q c1 b1 c2 b2 : MatrixOp with arrays F (c1 x + b1) (c2 y + b2): x drives parameter p
         (first argument), y drives parameter q <> p (second argument); Dp, Dq the first-derivative
@@ -447,11 +485,13 @@ Definition lift_fop (pr : R * R -> R) (f : Jet.fop) : fop (R * R) :=
   | Jet.FScalar a a0 => FScalar (fun i => a (pr i)) (option_map (fun g i => g (pr i)) a0)
   | Jet.FMatrix m m0 => FMatrix (fun i => m (pr i)) (option_map (fun g i => g (pr i)) m0)
   | Jet.FShift d nm => FShift d nm
-  | Jet.FPD p => FPD p
+  | Jet.FPD p r => FPD p r
+  | Jet.FSpoil => FSpoil
+  | Jet.FReset => FReset
   | Jet.FWait => FWait
   end.
 Lemma inst_lift pr f i : inst (R * R) (lift_fop pr f) i = Jet.inst f (pr i).
-Proof. destruct f as [a [a0|]|m [m0|]|d nm|p|]; reflexivity. Qed.
+Proof. destruct f as [a [a0|]|m [m0|]|d nm|p r| | |]; reflexivity. Qed.
 
 Definition fam2_of (it : ritem2) : fop (R * R) :=
   match it with
@@ -475,6 +515,10 @@ Definition dopV_of (z0 : R) (vv u w : var) (it : ritem) : dinstr Cops :=
       DOp (dopV Cops (LScalar (fst (A (c * z0 + b))) (snd (A (c * z0 + b)))) p
                  (LScalar (fst (D (c * z0 + b))) (snd (D (c * z0 + b)))) vv u w (RtoC c))
   | RS d nm => DOp (dop0 Cops (LShift d nm))
+  | RSpoil => DPlain (@OSpoil Cops)
+  | RReset => DPlain (@OReset Cops)
+  | RPD p r => DPlain (@OPD Cops p r)
+  | RWait => DPlain (@OWait Cops)
   end.
 
 Definition dop2_of (x0 y0 : R) (u w : var) (it : ritem2) : dinstr Cops :=
@@ -506,6 +550,10 @@ Definition jetV_of (sel : bool) (z0 : R) (it : ritem) : op DDC :=
               (if h then Some (slotT sel (opt0 (snd (A (c * z0 + b)))) (sT (RtoC c) (opt0 (snd (D (c * z0 + b))))))
                else None)
   | RS d nm => OShift d nm
+  | RSpoil => OSpoil
+  | RReset => OReset
+  | RPD p r => @OPD DDC (inj4 p) r
+  | RWait => OWait
   end.
 Definition c12 (c1 c2 : R) : C := Cmult (RtoC c1) (RtoC c2).
 Definition jet2_of (x0 y0 : R) (it : ritem2) : op DDC :=
@@ -562,7 +610,7 @@ Lemma jetV_jet x0 y0 (sel : bool) it :
   is_jet (R * R) DDC (jet2 x0 y0) inj4 (lift_fop (if sel then fst else snd) (fam_of it))
          (jetV_of sel (if sel then x0 else y0) it).
 Proof.
-  destruct it as [M|F D p c b|A|A D h p c b|d nm]; cbn [item_ok fam_of lift_fop jetV_of is_jet ojet option_map]; intros Hok.
+  destruct it as [M|F D p c b|A|A D h p c b|d nm| | |q r|]; cbn [item_ok fam_of lift_fop jetV_of is_jet ojet option_map]; intros Hok.
   - split; [exact (jet2M_const x0 y0 M)|exact I].
   - split; [|exact I]. destruct sel; cbn [slotM].
     + apply (jet2M_zip x0 y0 (fun i => F (c * fst i + b)) (fun _ => mz));
@@ -589,6 +637,10 @@ Proof.
           [reflexivity|exact (derT_const (opt0 (snd (A (c * y0 + b)))) x0)| |reflexivity|exact (derT_const _ x0)].
         apply loc_all. intros x. exact (derT_affine (fun t => opt0 (snd (A t))) c b y0 _ Da0).
   - split; reflexivity.
+  - exact I.
+  - exact I.
+  - split; reflexivity.
+  - exact I.
 Qed.
 
 (* d/dx of  x |-> c2 * Dq (c1 x + b1) q0 *)
@@ -645,7 +697,7 @@ Lemma itemV_pair (sel : bool) z0 u w bb it : u <> w -> item_ok z0 it ->
   pair_ok12C u w bb (jetV_of sel z0 it) (dopV_of z0 (if sel then u else w) u w it).
 Proof.
   intros Hne.
-  destruct it as [M|F D p c b|A|A D h p c b|d nm]; cbn [item_ok jetV_of dopV_of]; intros Hok.
+  destruct it as [M|F D p c b|A|A D h p c b|d nm| | |q r|]; cbn [item_ok jetV_of dopV_of]; intros Hok.
   - assert (E : LMatrix M None = mlinC (LMatrix (zip4M M mz mz mz) None)) by (cbn [map_lin option_map]; now rewrite v4M_zip).
     rewrite E. apply (dop0_ok DDC Cops Claws e00 e10 e01 e11 u w bb (LMatrix (zip4M M mz mz mz) None)); try reflexivity;
       cbn [lmat lmat0]; now rewrite ?x4M_zip, ?y4M_zip, ?xy4M_zip.
@@ -689,6 +741,10 @@ Proof.
          [rewrite ?x4M_mdiag, ?y4M_mdiag, ?xy4M_mdiag, ?mdiag_tscale; reflexivity
          |rewrite ?(Z1 eq_refl), ?mscale_mzero; reflexivity]).
   - exact (dop0_shift_ok DDC Cops e00 e10 e01 e11 u w bb d nm).
+  - reflexivity.
+  - reflexivity.
+  - exact (plain_pd_pair u w bb q r).
+  - reflexivity.
 Qed.
 
 Lemma item2_pair x0 y0 u w bb it : u <> w -> item2_ok x0 y0 it ->
